@@ -18,7 +18,8 @@ CHECKS = {
                 "kind, generates programs, and every program is replayed on the real storage: a child process is SIGKILLed "
                 "at each hook point of the operation's write transaction, a fresh process observes directories and API "
                 "state, and TLC validates hook order, directory contents and API view against the model of the code and "
-                "evaluates the property. Exhaustive over crash points of the generated programs; level = model checking "
+                "evaluates the property; a stack with the notification middleware in front runs the same operations nested in "
+                "an outer transaction. Exhaustive over crash points of the generated programs; level = model checking "
                 "+ replay conformance.",
         "note": "crash = SIGKILL of the process (page cache survives; power loss / fsync ordering is not modelled); unversioned "
                 "bucket, two keys, contents c2/c3(/c4); GC does not run during the operation; TLC, Go and SQLite atomic commit trusted",
@@ -27,11 +28,14 @@ CHECKS = {
     },
 }
 
-REQUIRED = ["put-new", "overwrite", "delete", "copy-shared", "copy-cross", "complete", "abort", "transition-cross", "put-dedup"]
+REQUIRED = ["put-new", "overwrite", "delete", "copy-shared", "copy-cross", "complete", "abort", "transition-cross", "put-dedup",
+            "bulk-delete"]
 QUICK_KINDS = {
     "fs": ["put-new", "overwrite", "delete", "delete-mp", "put-dedup", "copy-shared", "copy-shared-overwrite", "complete",
-           "complete-overwrite", "abort", "uploadpart-replace", "transition-shared"],
+           "complete-overwrite", "abort", "uploadpart-replace", "transition-shared", "bulk-delete-mp"],
     "classes": ["copy-cross", "transition-cross"],
+    # notification middleware in front: the operation is nested in the middleware's outer transaction
+    "fs-notif": ["delete", "bulk-delete-mp", "overwrite", "put-dedup"],
 }
 QUICK_GC = {"delete", "overwrite", "transition-cross"}
 
@@ -45,7 +49,7 @@ def pick_programs(ctx, stack, programs, rng):
     if ctx.quick():
         kinds, per = QUICK_KINDS.get(stack, []), 1
     else:
-        kinds, per = sorted(by_kind), {"fs": 4, "classes": 3, "ec21": 2}[stack]
+        kinds, per = sorted(by_kind), {"fs": 4, "classes": 3, "ec21": 2, "fs-notif": 2}[stack]
     for kind in kinds:
         cand = sorted(by_kind.get(kind, []), key=lambda p: json.dumps(p, sort_keys=True))
         if not cand:
@@ -74,10 +78,12 @@ def run(ctx):
         # testing aid for a repaired tree (VERIF_REPO=<tree with proposed_fixes/D-C10-delete-window.diff applied>):
         # conformance then runs against the intended design, i.e. with the recovery pass at Start
         devs = "{}"
-    stacks = ctx.pick(["fs", "classes"], ["fs", "classes", "ec21"])
+    stacks = ctx.pick(["fs", "classes", "fs-notif"], ["fs", "classes", "ec21", "fs-notif"])
     workers = 4 if ctx.quick() else 8
     # 1. design-level MC: every step boundary of every operation kind, intended design (recovery at Start)
     for stack in stacks:
+        if os.environ.get("VERIF_SKIP_MC") or (stack == "fs-notif" and ctx.quick()):
+            continue   # fs-notif differs from fs by one effect-free after-commit step
         ms = ctx.pick(1, 2)
         r = ctx.mc("TxFs", "TxFs.MC.cfg", workers=workers, timeout=ctx.pick(600, 3000),
                    subst={"Stack": '"%s"' % stack, "MaxSetup": str(ms)})
@@ -99,6 +105,8 @@ def run(ctx):
         gen_setup = 2 if (stack == "fs" or not ctx.quick()) else 1
         if stack == "ec21":
             gen_setup = 1
+        if stack == "fs-notif":
+            gen_setup = ctx.pick(1, 2)
         contents = '{"c2", "c3", "c4"}' if stack == "ec21" else '{"c2", "c3"}'   # c4 spans several EC stripes
         g = ctx.tlc("TxFsGen", "TxFs.Gen.cfg", workers=1, timeout=ctx.pick(600, 3000), count_mc=False,
                     subst={"Stack": '"%s"' % stack, "MaxSetup": str(gen_setup), "Contents": contents})
